@@ -229,6 +229,7 @@ def main(argv=None):
             rep.count("decoration:" + what)
             try:
                 c2 = load_with_timeout(drv, deco, m)
+                pipeline.check_parser(rep, drv, deco, "decorated text")
             except LoadTimeout:
                 rep.violation(f"loading the decorated text ({what}) does not finish within 20 s", {"kind": "direct", "text": text, "decorated": deco, "decoration": what})
                 continue
